@@ -254,6 +254,9 @@ func (t *T) Transitions(n int) { t.c.Transitions(n) }
 func (t *T) Validated(n int)   { t.c.Validated(n) }
 func (t *T) NonTrivial()       { t.c.NonTrivial() }
 
+// Cap records that this case was decided on less than its whole space (the evidence then says exhaustive:false).
+func (t *T) Cap(what string) { t.c.Cap(what) }
+
 // Alive tells the watchdog that a long case is making progress (the hang deadline is for cases that stop).
 func (t *T) Alive() { atomic.AddInt64(&t.c.progress, 1) }
 
